@@ -395,7 +395,7 @@ func (n *Tree[V]) findNode(path string, captures []string, matcher LookupMatcher
 	if n.catchAllChild != nil {
 		// Hit the catchall, so just assign the whole remaining path.
 		for idx, value = range n.catchAllChild.values {
-			if match := matcher.Match(value, n.wildcardKeys, captures); match {
+			if match := matcher.Match(value, n.catchAllChild.wildcardKeys, append(captures, path)); match {
 				return n.catchAllChild, idx, append(captures, path), false
 			}
 		}
